@@ -1,5 +1,7 @@
 import BSModel.Driver.Util
+import BSModel.Driver.C01
 import BSModel.Model.Text
+import BSModel.Model.TextHeap
 import BSModel.Gen.Text
 /-! line protocol of C13 (text extraction)
 
@@ -8,6 +10,12 @@ import BSModel.Gen.Text
     c13 sc <elementClasses> <containers> <top|N> <base|N>     BeautifulSoup.string_container
     c13 interesting <containers> <name>                        Tag.__init__'s interesting_string_types
     c13 strip <cps>
+    c13 heap <mode> <kinds> <ops|-> <cls> <interesting> <nq> <query>*nq
+        the pointer heap of Model/Heap.lean after the edit history `ops` (protocol of Driver/C01.lean) on fresh objects
+        of the given kinds; cls = class code per initial id ('.'-separated; strings the library allocates are
+        NavigableString, or Comment for a preformatted `.string=`); interesting = per id, ';'-separated, `_` = main content
+        classes; mode `heap` = `allStringsHeap`/`getTextHeap`/`stringPropHeap` (pointer chase), mode `tree` = the tree-level
+        code-mirror on `toNode`; a query's receiver is a C01 label (`t3`, `s7`)
 
     tree   := S <cls> <cps> | T <name> <interesting> <nkids> tree*nkids
     query  := <path>/<op>[/<arg>…]   path = r | i.j.k   (child indices from the root)
@@ -129,7 +137,75 @@ def showInteresting : Interesting → String
   | .one c => s!"o{codeOf c}"
   | .many cs => "m" ++ (if cs.isEmpty then "-" else ".".intercalate (cs.map (fun c => toString (codeOf c))))
 
+/-! ### the pointer heap -/
+open BS.Heap in
+def runHist : Heap → List String → Option Heap
+  | h, [] => some h
+  | h, o :: os =>
+    match BS.Drv.C01.parseOp h o with
+    | none => none
+    | some op =>
+      match step h op with
+      | .error _ => none
+      | .ok h1 => runHist h1 os
+
+open BS.Heap in
+def heapLabels (n : Nat) (cls : List Nat) (ints : List String) (h : Heap) : Labels :=
+  { cls := fun i =>
+      if i < n then clsOf (cls.getD i 0)
+      else if h.kind i = .pre then .comment else .navigableString,
+    interesting := fun i =>
+      match ints[i]? with
+      | some s => if s == "_" then .many main else parseInteresting s
+      | none => .many main,
+    name := fun i => [i] }
+
+open BS.Heap in
+def answerHeap (tree : Bool) (h : Heap) (L : Labels) (q : String) : String :=
+  match q.splitOn "/" with
+  | lab :: op :: args =>
+    match BS.Drv.C01.resolve h lab with
+    | none => "bad-label"
+    | some x =>
+      let all := fun (s : Bool) (t : TypesArg) =>
+        if tree then Except.ok (allStringsImpl main s t (toNode h L h.cap x)) else allStringsHeap main h L s t x
+      let showA := fun (r : Except Err (List PStr)) => match r with | .ok l => showPieces l | .error _ => "crash"
+      match op, args with
+      | "A", [s, t] => showA (all (s == "1") (parseTypes t))
+      | "ST", [] => showA (all false .dflt)
+      | "SS", [] => showA (all true .dflt)
+      | "G", [s, t, sep] =>
+        if tree then showP (getTextImpl main (cps sep) (s == "1") (parseTypes t) (toNode h L h.cap x))
+        else match getTextHeap main h L (cps sep) (s == "1") (parseTypes t) x with
+          | .ok r => showP r
+          | .error _ => "crash"
+      | "TX", [] =>
+        if tree then showP (textImpl main (toNode h L h.cap x))
+        else match getTextHeap main h L [] false .dflt x with
+          | .ok r => showP r
+          | .error _ => "crash"
+      | "SP", [] =>
+        if tree then
+          match stringProp (toNode h L h.cap x) with
+          | none => "none"
+          | some (c, v) => s!"{codeOf c}:{showP v}"
+        else
+          match stringPropHeap h h.cap x with
+          | none => "none"
+          | some sId => s!"{codeOf (L.cls sId)}:{showP (h.val sId)}@{BS.Drv.C01.label h sId}"
+      | _, _ => "bad-query"
+  | _ => "bad-query"
+
+def handleHeap (mode kinds ops cls ints nq : String) (qs : List String) : String :=
+  let h0 := BS.Drv.C01.initHeap kinds
+  match runHist h0 (splitNE ";" ops) with
+  | none => "bad-history"
+  | some h =>
+    let L := heapLabels kinds.length (natList "." cls) (ints.splitOn ";") h
+    " | ".intercalate ((qs.take nq.toNat!).map (answerHeap (mode == "tree") h L))
+
 def handle : List String → String
+  | "heap" :: mode :: kinds :: ops :: cls :: ints :: nq :: qs => handleHeap mode kinds ops cls ints nq qs
   | "run" :: nq :: rest => runQueries false nq rest
   | "spec" :: nq :: rest => runQueries true nq rest
   | ["sc", ec, cont, top, base] =>
